@@ -135,6 +135,24 @@ def run():
                 H.note_truncated('stream enumeration w=%d stopped by time budget' % w)
                 break
 
+    # decimal thresholds (0.1, 0.2, ...): floor(1/threshold) is read as the decimal value (10, 5, ...), which is what
+    # int(1/threshold) gives in float arithmetic; structured streams (all distinct; cyclic over w+1 keys; one heavy key)
+    from fractions import Fraction
+    for thr in (0.1, 0.2, 0.05, 0.01):
+        w = int(Fraction(1) / Fraction(str(thr)))
+        for kind in ('distinct', 'cyclic', 'heavy'):
+            tc = ThresholdCounter(thr)
+            true = {}
+            stream = []
+            for i in range(3 * w + 2):
+                k = i if kind == 'distinct' else (i % (w + 1)) if kind == 'cyclic' else (0 if i % 2 else i)
+                stream.append(k)
+                tc.add(k)
+                true[k] = true.get(k, 0) + 1
+                H.ev(key=('dec', thr, kind, i), nontrivial=True, sample=dict(threshold=thr, stream=kind, length=i + 1))
+                check_state(H, tc, true, i + 1, w, thr, dict(threshold=thr, stream='%s, first %d additions' % (kind, i + 1)),
+                            'ThresholdCounter.add')
+
     # update() argument kinds
     for w in (2, 3):
         thr = thr_for(w)
